@@ -329,6 +329,11 @@ enum Unit {
     Three { ty: Ty, first: usize },
     /// deviations (closure / preservation only)
     Devs { ty: Ty },
+    /// thin rings of every size in [lo, hi): n-2 unit steps along y = 16 and one long edge back
+    /// (the long edge is the (n-1)-th edge: any block-wise area sum that loses an edge flips the sign)
+    Slivers { ty: Ty, lo: usize, hi: usize },
+    /// small rings translated far from the origin (extent / offset down to 2^-40)
+    Offsets { ty: Ty },
     /// multipatch: single patches / pairs
     Patch1,
     Patch2 { first: usize },
@@ -393,7 +398,68 @@ fn enumerate(u: &Unit, ctx: &mut Ctx, tick: &dyn Fn()) {
                 tick();
             }
         }
+        Unit::Slivers { ty, lo, hi } => {
+            for n in *lo..*hi {
+                // (0,16),(1,16),...,(n-3,16),(n-3,18) then closed: the closing edge is the long one
+                let mut pts: Vec<P4> = (0..n - 2).map(|i| [i as f64, 16.0, 5.0, 7.0]).collect();
+                pts.push([(n - 3) as f64, 18.0, 5.0, 7.0]);
+                pts.push([0.0, 18.0, 5.0, 7.0]);
+                for rev in [false, true] {
+                    let mut p = pts.clone();
+                    if rev {
+                        p.reverse();
+                    }
+                    for role in 0..2u8 {
+                        run_case(&Case { ty: *ty, ctor: Ctor::WithRings, rings: vec![(role, p.clone())] }, ctx);
+                    }
+                }
+                tick();
+            }
+        }
+        Unit::Offsets { ty } => {
+            let lat = lattice(3);
+            let offs = [0.0f64, 134217728.0, -134217728.0, 1099511627776.0];
+            for len in 3..=4usize {
+                for idx in 0..9usize.pow(len as u32) {
+                    let base = seq_from_index(idx, len, &lat, 0);
+                    for ox in offs {
+                        for oy in offs {
+                            if ox == 0.0 && oy == 0.0 {
+                                continue;
+                            }
+                            let p: Vec<P4> = base.iter().map(|v| [v[0] + ox, v[1] + oy, v[2], v[3]]).collect();
+                            for role in 0..2u8 {
+                                run_case(&Case { ty: *ty, ctor: Ctor::WithRings, rings: vec![(role, p.clone())] }, ctx);
+                            }
+                        }
+                    }
+                }
+                tick();
+            }
+        }
         Unit::Devs { ty } => {
+            // a last vertex that differs from the first by a few units in the last place of one
+            // coordinate is a different vertex: the ring is open and must be closed
+            {
+                let dims = ty.dims();
+                let first = [10.1f64, -3.3, 5.5, 7.7];
+                for d in 0..4 {
+                    if !dims[d] {
+                        continue;
+                    }
+                    for ulps in [1i64, 2, 4, 8, -1, -4] {
+                        let mut last = first;
+                        last[d] = f64::from_bits((first[d].to_bits() as i64 + ulps) as u64);
+                        let p = vec![first, [12.0, -3.3, 5.5, 7.7], [10.1, 0.0, 5.5, 7.7], last];
+                        for role in 0..2u8 {
+                            let kind = if *ty == Ty::Multipatch { 2 + role * 3 } else { role };
+                            for ctor in [Ctor::New, Ctor::WithRings] {
+                                run_case(&Case { ty: *ty, ctor, rings: vec![(kind, p.clone())] }, ctx);
+                            }
+                        }
+                    }
+                }
+            }
             // rings of 1..4 vertices (open and closed), every slot x every value of F_xy
             let lat = lattice(3);
             let bases: Vec<Vec<P4>> = vec![
@@ -513,6 +579,16 @@ pub fn check(tier: Tier) -> i32 {
             }
         }
         units.push(Unit::Devs { ty });
+        units.push(Unit::Offsets { ty });
+    }
+    {
+        let max = tier.pick(9000usize, 20000);
+        let mut lo = 4;
+        while lo < max {
+            let hi = (lo + (200000 / lo).clamp(8, 500)).min(max);
+            units.push(Unit::Slivers { ty: Ty::PolygonM, lo, hi });
+            lo = hi;
+        }
     }
     for ty in if tier == Tier::Quick { vec![Ty::Polygon] } else { ptypes.to_vec() } {
         for first in 0..all_seqs(2, 3).len() {
@@ -533,7 +609,7 @@ pub fn check(tier: Tier) -> i32 {
             tier,
             level: "model_checking",
             engine: "E2 enumerator over lattice vertex sequences on the real Polygon*/Multipatch constructors and macros; oracle = exact i128 shoelace and vertex-sequence comparison (RefRing)",
-            rule: "single ring: every vertex sequence of length 1..5 (thorough 6) over {0,1,2}^2 x declared role x {new, with_rings, polygon!} x {Polygon, PolygonM, PolygonZ} x Z/M patterns {all equal, last differs only in M, only in Z}; two rings: every pair of sequences of length <= 4 over {0,1}^2 (thorough also <= 3 over {0,1,2}^2) x all role vectors; three rings: every triple of length <= 3 over {0,1}^2 x all role vectors; deviations: every slot of 4 base rings x F_xy; multipatch: every single patch (length <= 4) x 6 kinds x {new, with_parts, multipatch!}, every pair (length <= 3) x 36 kind pairs; non-trivial = >= 2 rings or a ring of >= 3 vertices",
+            rule: "single ring: every vertex sequence of length 1..5 (thorough 6) over {0,1,2}^2 x declared role x {new, with_rings, polygon!} x {Polygon, PolygonM, PolygonZ} x Z/M patterns {all equal, last differs only in M, only in Z}; two rings: every pair of sequences of length <= 4 over {0,1}^2 (thorough also <= 3 over {0,1,2}^2) x all role vectors; three rings: every triple of length <= 3 over {0,1}^2 x all role vectors; deviations: every slot of 4 base rings x F_xy, and a last vertex 1-8 ulps away from the first in one coordinate; thin rings of EVERY size 4..=bound (one long edge, both orientations, both roles); every ring of 3-4 vertices over {0,1,2}^2 translated by offsets in {0, +-2^27, 2^40}^2; multipatch: every single patch (length <= 4) x 6 kinds x {new, with_parts, multipatch!}, every pair (length <= 3) x 36 kind pairs; non-trivial = >= 2 rings or a ring of >= 3 vertices",
             bounds: json!({"lattice": "3x3 (single ring), 2x2 (two / three rings)", "max_ring_len": tier.pick(5, 6), "units": units.len()}),
             exhaustive: true,
             assumptions: vec!["orientation is judged only where the shoelace sum is exact (lattice coordinates); closure and vertex preservation also on F_xy values; equality of vertices is IEEE == on the fields the point type has (so -0.0 closes +0.0)".into()],
